@@ -275,3 +275,17 @@ func replayKind(path string) string {
 	json.Unmarshal(b, &m)
 	return m.Kind
 }
+
+// replayHasHistory reports whether a replay file carries a recorded store history (the form
+// replayStore re-executes); other replays of the store properties re-run the exploration.
+func replayHasHistory(path string) bool {
+	b, err := os.ReadFile(path)
+	if err != nil {
+		return false
+	}
+	var m struct {
+		History []json.RawMessage `json:"history"`
+	}
+	json.Unmarshal(b, &m)
+	return len(m.History) > 0
+}
